@@ -244,6 +244,8 @@ def run(ctx, rep) -> None:
             label = "sqlite"
         _check_ancestor_merge(rep, f, label)
         _merge_inputs_fresh(rep, f, label, prog)
+    _r6_outputs_written(ctx, rep)
+    _r3b_task_input_builders(ctx, rep)
 
     # ---- R3 / R2 overlay -----------------------------------------------------------------------------------------
     ps = prog.func(PLANNER, "StartStagePlannerMixin._plan_stage") if any(c.name == "StartStagePlannerMixin" for c in prog.module(PLANNER).classes.values()) else None
@@ -426,3 +428,91 @@ def run(ctx, rep) -> None:
             break
         why = f"result[key] = {v.func.id}({v.args[0].id}) with {v.args[0].id} = {norm(comp)}"
     rep.check(all_ok, "C16.R5", "apply_output_reducers reduces the key over every branch that produced it", why, rm.relpath, ar.lineno, disc="all-branches")
+
+
+# ---- R6 / R3b --------------------------------------------------------------------------------------------------------------
+def _r6_outputs_written(ctx, rep) -> None:
+    """A task result's outputs/context reach the stage row before ANY dispatch on the result's status: every handler that can
+    complete the task (incl. the jump hand-over) stores the stage that carries them, and later stages inherit them through the
+    ancestor merge. A dispatch branch that returns before the merge loses them for every descendant."""
+    prog = ctx.prog
+    rep.rule("C16.R6", "process_result merges result.outputs / result.context into the stage unconditionally (guarded only by their own presence/type) before the first dispatch on result.status")
+    pr = prog.func("stabilize.handlers.run_task.result", "process_result")
+    fn = pr.node
+    from ..dom import raw_conditions_at
+    ups = {}
+    for c in ast.walk(fn):
+        if isinstance(c, ast.Call) and isinstance(c.func, ast.Attribute) and c.func.attr == "update" and c.args:
+            tgt, src = norm(c.func.value), norm(c.args[0])
+            if tgt in ("stage.outputs", "stage.context") and src in ("result.outputs", "result.context"):
+                ups[tgt] = c
+    dispatch = [c for c in ast.walk(fn) if isinstance(c, ast.Call) and isinstance(c.func, ast.Name) and c.func.id.startswith("_handle_")]
+    rep.floor("dispatch calls in process_result", len(dispatch), 5)
+    for tgt in ("stage.outputs", "stage.context"):
+        c = ups.get(tgt)
+        if c is None:
+            rep.fail("C16.R6", f"process_result writes {tgt}", f"no `{tgt}.update(result.{tgt.split('.')[1]})` found: task results never reach the stage", pr.file, fn.lineno, disc=f"written:{tgt}")
+            continue
+        conds = [norm(t) for t, tr in raw_conditions_at(fn, c)]
+        status_dep = [t for t in conds if "result.status" in t or "target_stage_ref_id" in t]
+        early = [d for d in dispatch if getattr(d, "_ord", d.lineno) < getattr(c, "_ord", c.lineno)]
+        ok = not status_dep and not early
+        rep.check(ok, "C16.R6", f"process_result: {tgt} receives the task result before any dispatch", "merged first, guarded only by presence/type" if ok else
+                  (f"`{norm(early[0].func)}` (line {early[0].lineno}) is dispatched before the merge" if early else f"the merge depends on {status_dep}") +
+                  ": results handled by that branch never reach the stage row, so no descendant inherits them through the ancestor merge", pr.file, c.lineno, disc=f"written-first:{tgt}")
+
+
+def _r3b_task_input_builders(ctx, rep) -> None:
+    """Tasks that assemble their own input from `stage.ancestors()` and `stage.context` (PythonTask, HighwayTask) must apply them
+    in the order _plan_stage uses: ancestors first, the stage's own context on top (later wins)."""
+    prog = ctx.prog
+    rep.rule("C16.R3", "task-level input builders (functions in stabilize.tasks that read both stage.ancestors() outputs and stage.context) apply ancestor outputs before the stage's own context, like _plan_stage")
+    n = 0
+    for f in prog.all_functions():
+        if not f.module.name.startswith("stabilize.tasks"):
+            continue
+        fn = f.node
+        anc_loops = [lp for lp in ast.walk(fn) if isinstance(lp, ast.For) and "ancestors()" in norm(lp.iter)]
+        if not anc_loops or "stage.context" not in norm(fn):
+            continue
+        # variables fed from ancestors / from the own context
+        anc_vars, ctx_vars = set(), set()
+        events = []      # (ord, kind)
+        for lp in anc_loops:
+            for c in ast.walk(lp):
+                if isinstance(c, ast.Call) and isinstance(c.func, ast.Attribute) and c.func.attr == "update" and ".outputs" in norm(c.args[0] if c.args else c):
+                    anc_vars.add(norm(c.func.value))
+        for a in ast.walk(fn):
+            if isinstance(a, ast.Assign) and len(a.targets) == 1 and isinstance(a.targets[0], ast.Name) and "stage.context" in norm(a.value) and not isinstance(a.value, ast.Call):
+                ctx_vars.add(a.targets[0].id)
+            if isinstance(a, ast.Assign) and len(a.targets) == 1 and isinstance(a.targets[0], ast.Name) and isinstance(a.value, (ast.DictComp,)) and "stage.context" in norm(a.value):
+                ctx_vars.add(a.targets[0].id)
+        order = []
+        for d in ast.walk(fn):
+            if isinstance(d, ast.Dict) and any(k is None for k in d.keys):
+                seq = [norm(v) for k, v in zip(d.keys, d.values) if k is None]
+                kinds = ["anc" if v in anc_vars else "ctx" if (v in ctx_vars or "stage.context" in v) else "?" for v in seq]
+                if "anc" in kinds and "ctx" in kinds:
+                    order = kinds
+        if not order:
+            # update-call order on one accumulator
+            for acc in anc_vars:
+                ev = []
+                for c in ast.walk(fn):
+                    if isinstance(c, ast.Call) and isinstance(c.func, ast.Attribute) and c.func.attr == "update" and norm(c.func.value) == acc and c.args:
+                        src = norm(c.args[0])
+                        kind = "anc" if ".outputs" in src and "ancestor" in src else "ctx" if "stage.context" in src or src in ctx_vars else "?"
+                        ev.append((getattr(c, "_ord", c.lineno), kind))
+                kinds = [k for _, k in sorted(ev)]
+                if "anc" in kinds and "ctx" in kinds:
+                    order = kinds
+        if not order:
+            continue
+        n += 1
+        last_anc = max(i for i, k in enumerate(order) if k == "anc")
+        first_ctx = min(i for i, k in enumerate(order) if k == "ctx")
+        ok = last_anc < first_ctx
+        rep.check(ok, "C16.R3", f"{f.module.name.split('.', 1)[1]}:{f.qualname}: ancestors below the stage's own context", f"application order {order} (later wins)" + ("" if ok else
+                  ": ancestor outputs are applied on top of the stage's own (planned) context - the task sees a farther ancestor's value, or an inherited value instead of its own, although _plan_stage stored the right one"),
+                  f.file, fn.lineno, disc=f"task-input-order:{f.qualname}")
+    rep.floor("task-level input builders", n, 2)
